@@ -3,14 +3,34 @@ namespace MaddyVerif.Expect.FuncSkelC09
 
 /-- (declaration, fingerprint of its normalised text): comments, layout, local names and log/trace statements do not count -/
 def funcs : List (String × String) := [
+  ("internal/msgpipeline/msgpipeline.go:msgpipelineDelivery.AddRcpt", "4a921086f6367c2d"),
   ("internal/msgpipeline/msgpipeline.go:msgpipelineDelivery.BodyNonAtomic", "9ef190be8c536e0f"),
   ("internal/msgpipeline/msgpipeline.go:statusCollector.SetStatus", "ce68335872bcfb76"),
+  ("internal/smtpconn/smtpconn.go:C.Data", "e530fddde562e053"),
+  ("internal/smtpconn/smtpconn.go:C.LMTPData", "e179f60ed562690a"),
+  ("internal/smtpconn/smtpconn.go:C.Mail", "8523461fcbacba1f"),
   ("internal/smtpconn/smtpconn.go:C.Rcpt", "243e20ba4f421fdc"),
   ("internal/smtpconn/smtpconn.go:C.Rcpts", "180e824f795f01ee"),
+  ("internal/smtpconn/smtpconn.go:C.wrapClientErr", "061f2b3d64b9f03c"),
+  ("internal/target/remote/remote.go:remoteDelivery.AddRcpt", "22f624f979db1f13"),
+  ("internal/target/remote/remote.go:remoteDelivery.Body", "a554d8cda54e01ca"),
   ("internal/target/remote/remote.go:remoteDelivery.BodyNonAtomic", "74a666db1a05c9ea"),
+  ("internal/target/smtp/smtp_downstream.go:Downstream.Init", "aba1b36f32ce13ef"),
+  ("internal/target/smtp/smtp_downstream.go:Downstream.InstanceName", "6e7760df5bb2be86"),
+  ("internal/target/smtp/smtp_downstream.go:Downstream.Name", "e7dac2487599bc9c"),
+  ("internal/target/smtp/smtp_downstream.go:Downstream.Start", "38aaa4b6e2493d7e"),
+  ("internal/target/smtp/smtp_downstream.go:Downstream.moduleError", "23436769285843f0"),
+  ("internal/target/smtp/smtp_downstream.go:NewDownstream", "de85576e77a38686"),
+  ("internal/target/smtp/smtp_downstream.go:delivery.Abort", "1165e84a5fbc4594"),
   ("internal/target/smtp/smtp_downstream.go:delivery.AddRcpt", "70ae4e5f5dbd39ac"),
   ("internal/target/smtp/smtp_downstream.go:delivery.Body", "3014f2e7bf3c5aab"),
-  ("internal/target/smtp/smtp_downstream.go:lmtpDelivery.BodyNonAtomic", "7c317da1d0ed03bd")
+  ("internal/target/smtp/smtp_downstream.go:delivery.Commit", "ed078a6d3c27840f"),
+  ("internal/target/smtp/smtp_downstream.go:delivery.connect", "6a0603d98b83eee2"),
+  ("internal/target/smtp/smtp_downstream.go:init", "3b4c44f06284398a"),
+  ("internal/target/smtp/smtp_downstream.go:lmtpDelivery.BodyNonAtomic", "7c317da1d0ed03bd"),
+  ("internal/target/smtp/smtp_downstream.go:type Downstream", "48282401dea8067b"),
+  ("internal/target/smtp/smtp_downstream.go:type delivery", "5b8d6be69d39c03b"),
+  ("internal/target/smtp/smtp_downstream.go:type lmtpDelivery", "95062c840117a5fb")
 ]
 
 end MaddyVerif.Expect.FuncSkelC09
